@@ -538,6 +538,7 @@ def check(repo, run, tier):
 
 def mutants(repo):
     return [
+        Mutant('null-payload-accepts-a-value', lambda r: in_func(r, 'ConfigNone.__new__', "            raise ValueError(f'!null does not expect any arguments, but got: {value!r}')", "            pass"), ['C01.R8']),
         Mutant('parsing-error-without-node', lambda r: in_func(r, 'yaml.parse', "raise errors.ParsingError(str(e), node=None, path=None) from e", "raise errors.ParsingError(str(e), path=None) from e"), ['C01.R6']),
         Mutant('metadata-end-not-found', lambda r: in_func(r, 'yaml._get_metadata_end', "        if end == -1:", "        if end != -1:"), ['C01.R7']),
         Mutant('constructor-swaps-loader-and-node', lambda r: in_func(r, 'yaml._xref_constructor', "_make_node(loader, node,", "_make_node(node, loader,"), ['C01.R1c']),
